@@ -136,3 +136,27 @@ Example C15_reuse_after_cancel :
   fst (eval_module (fun j => j =? 0) c (Loop 5 Skip) s1) = Ok /\
   spos (snd (eval_module (fun j => j =? 0) c (Loop 5 Skip) s1)) = 1005.
 Proof. vm_compute. repeat split. Qed.
+
+(* ---- a lazily allocated frame array must still enforce the configured maximum exactly (Limits/LazyStack.v) ---- *)
+From SV Require Limits.LazyStack.
+
+Theorem C15_lazy_stack_exact : forall (max : nat) (grow : nat -> nat),
+  (forall a, a < max -> a < grow a <= max) ->
+  forall init ops, SV.Limits.LazyStack.Inv max init ->
+  let s := List.fold_left (SV.Limits.LazyStack.step max grow) ops init in
+  SV.Limits.LazyStack.Inv max s /\
+  (SV.Limits.LazyStack.push max grow s = None <-> SV.Limits.LazyStack.count s = max).
+Proof. exact SV.Limits.LazyStack.lazy_stack_exact. Qed.
+
+Theorem C15_lazy_stack_unclamped_refuted :
+  let s := List.fold_left (SV.Limits.LazyStack.step 60 SV.Limits.LazyStack.grow_unclamped)
+             (List.repeat SV.Limits.LazyStack.Push 60) {| SV.Limits.LazyStack.alloc := 50; SV.Limits.LazyStack.count := 0 |} in
+  SV.Limits.LazyStack.count s = 60 /\ SV.Limits.LazyStack.push 60 SV.Limits.LazyStack.grow_unclamped s <> None.
+Proof. exact SV.Limits.LazyStack.lazy_stack_unclamped_refuted. Qed.
+
+Example C15_lazy_stack_nonvacuous :
+  SV.Limits.LazyStack.Inv 60 {| SV.Limits.LazyStack.alloc := 50; SV.Limits.LazyStack.count := 0 |} /\
+  SV.Limits.LazyStack.push 60 (SV.Limits.LazyStack.grow_clamped 60)
+    (List.fold_left (SV.Limits.LazyStack.step 60 (SV.Limits.LazyStack.grow_clamped 60))
+       (List.repeat SV.Limits.LazyStack.Push 60) {| SV.Limits.LazyStack.alloc := 50; SV.Limits.LazyStack.count := 0 |}) = None.
+Proof. exact SV.Limits.LazyStack.lazy_stack_nonvacuous. Qed.
